@@ -193,7 +193,8 @@ def hRun : Handler := handler fun args =>
       (stepEager acc.1 e, outs)) (init, [])
     pure (.list [.list (s.objs.reverse.map fun x => .list [SExp.ofNat x.id, SExp.ofNat x.lock]),
                  .list (outs.map SExp.ofBool),
-                 .list (toks.map fun t => SExp.ofBool (s.reg t).isSome)])
+                 .list (toks.map fun t => SExp.ofBool (s.reg t).isSome),
+                 SExp.ofNats s.held])
   | _ => none
 
 def table : List (String × Handler) := [("lock-run", hRun)]
